@@ -9,8 +9,8 @@ Implementation: engine A = the program without the replaced predicates + the reg
 program compiled; both get the dynamic facts; every query is enumerated on both.  Model (in Coq): Sem/Native.v nquery for
 both worlds.  All four answer sequences must be equal; a raised exception must reach the consumer as the same object after
 exactly the answers the model delivers before its error."""
-import sys
-from lib import progs, ast_io, terms, semcheck
+import sys, time
+from lib import progs, ast_io, terms, semcheck, consumers
 from lib.terms import g_str, g_list, g_nat, g_term, g_bool
 from lib.progs import V, A, F
 
@@ -26,13 +26,14 @@ THEOREMS = ['C20_sem_extensional_body', 'C20_sem_extensional_code', 'C20_sem_ext
             'C20_chain_member_python_vs_compiled', 'C20_mixed_sources_interchangeable', 'C20_mixed_sources_interchangeable_source', 'C20_python_then_script_is_one_definition',
             'C20_chained_python_predicate_is_first_clauses', 'C20_chain_engine_monotone', 'C20_exception_passthrough_chain_member',
             'C20_exception_at_the_chain', 'C20_chain_engine_with_exceptions_refines', 'C20_chain_engine_with_exceptions_built',
-            'C20_chain_exception_provenance', 'C20_chain_exception_unchanged']
+            'C20_chain_exception_provenance', 'C20_chain_exception_unchanged', 'C20_consumers_yield_value_irrelevant']
 IMPORTS = ['Lang.Ast', 'Sem.Machine', 'Sem.RunSem', 'Sem.Native', 'Sem.RunNative', 'Sem.NativeChain', 'Sem.NativeChainExc', 'Sem.RunNativeChain']
 CASE_TIMEOUT = 30
 COQ_CHUNK = 12
 DEPTH = 30
 LIMIT = 120
 CAP = 1200
+CONSUMER_TIME = 0.5     # seconds: a query whose plain enumeration takes longer is not run again behind the other consumer APIs
 RULE = ('random programs with conjunction, disjunction, if-then-else, \\+, cut, call/N, once/1, findall/3, = and \\= whose fact predicates '
         '(arity 0-3; rows with atoms, numbers, compound terms, lists, repeated and anonymous variables; 0-4 rows) are replaced, for '
         'several subsets per program including all, by Python generator functions registered with register_function in the '
@@ -49,8 +50,17 @@ RULE = ('random programs with conjunction, disjunction, if-then-else, \\+, cut, 
         'random: 3-7 operations), next to a script of rules that call m under conjunction, cut, if-then-else, \\+, once/1, findall/3, call/N; '
         'queries also after a prefix of the sequence.  Compared: the engine, its all-compiled twin built by the same sequence (each '
         'fixed-arity register_function with >= 1 row replaced by load_script(its facts, overwrite=True)) and the Coq engine with chains of '
-        'definitions per key (Sem/NativeChainExc.v cqueryE) for both; non-trivial there: >= 3 operations and some query has an answer.')
-TRUSTED_BASE = ['inspect.signature arity inference is exercised, not modelled: the model takes the resulting key']
+        'definitions per key (Sem/NativeChainExc.v cqueryE) for both; non-trivial there: >= 3 operations and some query has an answer.  '
+        'Round 4: the registered callables are of every kind (def, lambda, bound / class / static method, functools.partial, callable object, '
+        'functools.wraps-decorated *args and (*args, **kw) wrappers, parameters with defaults; with explicit arity also keyword-only parameters, '
+        'partial with a keyword, *args versions; variadic: the *args versions) and the key the engine stores is compared with the documented one; '
+        'Python predicates also re-enter the engine while they are solved (form requery: their rows are facts of a hidden dynamic predicate of the '
+        'same engine queried inside the loop; bounded: snapshot through yp.evaluate_bounded; asserting: assert_fact inside the loop); cut-free '
+        'conjunctive rules are written in Python too (re-entrant twins; the model keeps them compiled); every query that plain iteration '
+        'finishes (no raising predicate) is run again on both engines through evaluate_bounded (limit at / above the one in force: same answers '
+        'and flags; default limit: a prefix), list() and next()+close(), after which no variable is bound and the recursion limit is unchanged.')
+TRUSTED_BASE = ['inspect.signature arity inference is exercised (callables of every kind; the stored key is checked against the documented one), not modelled: the model takes the resulting key',
+                'the interpreter recursion limit and re-entrant Python predicates are not in the model: tied by the twin oracle (engine with Python predicates = all-compiled engine = model)']
 ASSUMPTIONS = ['the Python predicate unifies its arguments with each row and yields once per solution (well-behaved)']
 
 class Boom(Exception):
@@ -112,21 +122,27 @@ def rest_clauses(case):
 
 # ------------------------------------------------------------------ implementation side
 
-def _mk_inferred(k, body):
-    if k == 0:
-        def f(): return body(())
-    elif k == 1:
-        def f(a): return body((a,))
-    elif k == 2:
-        def f(a, b): return body((a, b))
-    elif k == 3:
-        def f(a, b, c): return body((a, b, c))
-    else:
-        def f(a, b, c, d): return body((a, b, c, d))
-    return f
+FORMS = ['arrays', 'nested', 'requery', 'bounded', 'asserting']
+_HIDDEN = [0]
+
+def pick_kind(rng, style):
+    """the kind of callable that is registered (lib/consumers.make_callable); with inferred arity only kinds whose signature has
+    exactly the predicate's parameters"""
+    if style == 'inferred':
+        return rng.choice(consumers.KINDS_FIXED)
+    if style == 'explicit':
+        return rng.choice(consumers.KINDS_FIXED + consumers.KINDS_EXPLICIT_ONLY + ['star:' + k for k in consumers.KINDS_STAR])
+    return rng.choice(consumers.KINDS_STAR + ['kwonly'])
+
+def expected_key(spec):
+    """the key under which register_function stores the predicate (documented: name_<number of parameters> / name_<arity> / name_n)"""
+    return '%s_n' % spec['name'] if spec['style'] == 'variadic' else '%s_%d' % (spec['name'], spec['arity'])
 
 def make_native(yp, E, spec, rows, exc_obj, log):
-    """the Python predicate: for row in rows: for _ in unify_arrays(args, row): yield v"""
+    """the Python predicate: for row in rows: for _ in unify_arrays(args, row): yield v  - or (forms requery / bounded) the same
+    rows kept as facts of a hidden dynamic predicate of the SAME engine, which the predicate queries while it is being solved
+    (re-entrant: inside its loop, resp. up front through yp.evaluate_bounded), or (asserting) asserting into a scratch predicate
+    of the engine inside its loop"""
     def build(t, fresh):
         k = t[0]
         if k == 'a': return yp.atom(t[1])
@@ -144,27 +160,56 @@ def make_native(yp, E, spec, rows, exc_obj, log):
             yield from nested(args, vals, i + 1)
     def value(i):
         return yield_value(spec['yield'], i)
-    def body(args):
-        log.append([spec['name'], len(args), [type(a).__name__ for a in args]])
-        count = 0
+    form = spec['form']
+    hidden = None
+    if form in ('requery', 'bounded'):
+        _HIDDEN[0] += 1
+        hidden = '%s__rows%d' % (spec['name'], _HIDDEN[0])
+        for i, (ts, nv) in enumerate(rows):
+            fresh = {}
+            yp.assert_fact(yp.atom(hidden), [i] + [build(t, fresh) for t in ts])
+    def answers(args):
+        """(row number, iterator over the solutions of args = row)"""
+        if form == 'requery':
+            I = yp.variable()
+            for _ in yp.query(hidden, [I] + list(args)):
+                yield E.get_value(I)
+            return
+        if form == 'bounded':
+            I = yp.variable()
+            vs = [yp.variable() for _ in args]
+            snap = yp.evaluate_bounded(yp.query(hidden, [I] + vs), lambda _: (E.get_value(I), [E.get_value(v) for v in vs]),
+                                       recursion_limit=max(sys.getrecursionlimit(), 1000) + 300)
+            for i, vals in snap:
+                for _ in E.unify_arrays(list(args), vals):
+                    yield i
+            return
         for i, (ts, nv) in enumerate(rows):
             fresh = {}
             vals = [build(t, fresh) for t in ts]
-            if spec['form'] == 'arrays':
+            if form in ('arrays', 'asserting'):
                 it = E.unify_arrays(list(args), vals)
             elif len(args) != len(vals):
                 continue
             else:
                 it = nested(list(args), vals, 0)
             for _ in it:
-                if spec.get('raise') is not None and count == spec['raise']:
-                    raise exc_obj
-                count += 1
-                yield value(i)
+                if form == 'asserting':
+                    yp.assert_fact(yp.atom(spec['name'] + '__seen'), [yp.atom('x'), len(args)])
+                yield i
+    def body(args):
+        log.append([spec['name'], len(args), [type(a).__name__ for a in args]])
+        count = 0
+        for i in answers(args):
+            if spec.get('raise') is not None and count == spec['raise']:
+                raise exc_obj
+            count += 1
+            yield value(i)
+    kind = spec.get('kind') or 'def'
     if spec['style'] == 'inferred':
-        return _mk_inferred(spec['arity'], body), None
-    def f(*args):
-        return body(args)
+        return consumers.make_callable(kind, spec['arity'], body), None
+    star = kind.startswith('star:') or spec['style'] == 'variadic'
+    f = consumers.make_callable(kind.split(':')[-1], spec['arity'], body, star=star)
     return f, (spec['arity'] if spec['style'] == 'explicit' else -1)
 
 def build_fact(yp, ts):
@@ -194,6 +239,7 @@ def run_queries(yp, E, case, exc_obj):
         W = E._VERIF_VARIABLES
         before = {id(v) for v in list(W) if v._is_bound} if W is not None else set()
         yp._verif_findall_inner = False
+        t_start = time.time()
         try:
             g = yp.query(q[0], objs)
             for x in g:
@@ -225,9 +271,29 @@ def run_queries(yp, E, case, exc_obj):
             x.__traceback__ = None
         leftover = [i for i in range(nq) if T.vars[i]._is_bound]
         leaked = sum(1 for v in list(W) if v._is_bound and id(v) not in before) if W is not None else 0
-        out.append({'answers': semcheck.canon_answers(answers), 'values': values, 'truth': truth, 'count': n, 'end': end, 'same': same,
-                    'leftover': leftover, 'leaked': leaked, 'findall_inner': bool(getattr(yp, '_verif_findall_inner', False))})
+        o = {'answers': semcheck.canon_answers(answers), 'values': values, 'truth': truth, 'count': n, 'end': end, 'same': same,
+             'leftover': leftover, 'leaked': leaked, 'findall_inner': bool(getattr(yp, '_verif_findall_inner', False))}
+        # the same query behind the other consumer APIs (evaluate_bounded, list(), next()+close()): lib/consumers.py
+        o['cons'] = None
+        if consumers.wanted(o) and time.time() - t_start < CONSUMER_TIME and not any(s.get('raise') is not None for s in case['native']):
+            o['reclimit'] = sys.getrecursionlimit()
+            o['cons'] = consumers.other_consumers(yp, q[0], args, nq, len(out) + len(case['queries']) + len(case['native']), LIMIT)
+        out.append(o)
     return out
+
+def consumer_oracle(t, a, what):
+    if a.get('cons'):
+        r = consumers.mismatch(a, a['cons'], LIMIT)
+        if r:
+            return '%s (%s): %s' % (t, what, r)
+    return None
+
+def keys_oracle(case, io):
+    """register_function stores the predicate under name_<number of parameters> (inferred), name_<arity> (explicit), name_n (variadic)"""
+    for spec in case['native']:
+        if expected_key(spec) not in io.get('keys', []) and spec.get('registered', True):
+            return 'Python predicate %s/%d (%s arity, a %s): no key %s in the engine, its keys are %s' % (spec['name'], spec['arity'], spec['style'], spec.get('kind') or 'def', expected_key(spec), io.get('keys'))
+    return None
 
 def impl(case):
     if case.get('kind') == 'mixed':
@@ -239,6 +305,10 @@ def impl(case):
     facts = fact_preds(num)
     for which in ('B', 'A'):
         cl = case['clauses'] if which == 'B' else rest_clauses(case)
+        tw = case.get('twins') or []
+        if which == 'A' and tw:
+            # some cut-free conjunctive RULES are written in Python too: re-entrant twins that query the same engine inside their loops
+            cl = [c for c in cl if [c[0], len(c[1])] not in [t[:2] for t in tw]]
         yp = E.YP()
         semcheck.watch_findall(yp)       # notices findall results that collect variables created while the goal ran (see semcheck)
         if cl:
@@ -250,6 +320,9 @@ def impl(case):
             yp.load_script_from_string(text)
         for name, ts in case['dyn']:
             yp.assert_fact(yp.atom(name), build_fact(yp, ts))
+        if which == 'A':
+            for name, ar, style in tw:
+                yp.register_function(name, consumers.python_twin(yp, E, case['clauses'], (name, ar), style), arity=ar)
         log = []
         def register(i, decoy=False):
             spec = case['native'][i]
@@ -451,6 +524,9 @@ def oracle(case, io):
         for x, what in ((a, 'Python-predicate engine'), (b, 'compiled engine')):
             if x['leftover'] or x['leaked']:
                 return 'query %s (%s): variables still bound after the enumeration ended (%s)' % (t, what, x['end'])
+            r = consumer_oracle('query ' + t, x, what)
+            if r:
+                return r
         if b['end'].startswith('raised') and b['end'] != 'raised RecursionError':
             return 'query %s: the all-compiled engine %s' % (t, b['end'])
         if a['end'].startswith('raised') and a['end'] != 'raised RecursionError':
@@ -464,10 +540,13 @@ def oracle(case, io):
     for q, a in zip(case['queries'], io.get('A0') or []):
         if a['leftover'] or a['leaked']:
             return 'query %s (first round): variables still bound after the enumeration ended (%s)' % (qtext(q), a['end'])
+        r = consumer_oracle('query ' + qtext(q), a, 'first round')
+        if r:
+            return r
     bad = [x for x in io.get('argtypes', []) if x not in ('Atom', 'Variable', 'Functor', 'int', 'str')]
     if bad:
         return 'a Python predicate received arguments that are not engine terms: %s' % bad
-    return None
+    return keys_oracle(case, io)
 
 # ------------------------------------------------------------------ generation
 
@@ -576,9 +655,20 @@ def dyn_terms(dyn):
         out.append([name, ts])
     return out
 
+def pick_twins(rng, clauses, extra_defined, exclude):
+    keys = []
+    for c in clauses:
+        k = (c[0], len(c[1]))
+        if k not in keys:
+            keys.append(k)
+    defined = set(keys) | set(extra_defined)
+    elig = [k for k in keys if k not in exclude and any(c[2] != ['true'] for c in clauses if (c[0], len(c[1])) == k) and consumers.twin_eligible(clauses, k, defined)]
+    return [[k[0], k[1], rng.choice([0, 1, 2, 2])] for k in elig if rng.random() < 0.6]
+
 def native_spec(rng, name, ar, raise_=None):
-    return {'name': name, 'arity': ar, 'style': rng.choice(['inferred', 'explicit', 'variadic']),
-            'yield': rng.choice(['false', 'true', 'mixed']), 'form': rng.choice(['arrays', 'nested']), 'raise': raise_}
+    style = rng.choice(['inferred', 'explicit', 'variadic'])
+    return {'name': name, 'arity': ar, 'style': style, 'kind': pick_kind(rng, style),
+            'yield': rng.choice(['false', 'true', 'mixed']), 'form': rng.choice(FORMS), 'raise': raise_}
 
 # ------------------------------------------------------------------ one predicate defined from MIXED SOURCES
 #
@@ -622,13 +712,18 @@ def impl_mixed(case):
         log = []
         for n, op in enumerate(ops):
             if op[0] == 'load':
-                if op[1]:
-                    src = ast_io.program_text(op[1])
+                tw = [t for t in (case.get('twins') or []) if which == 'A' and any([c[0], len(c[1])] == t[:2] for c in op[1])]
+                cl = [c for c in op[1] if [c[0], len(c[1])] not in [t[:2] for t in tw]]
+                if cl:
+                    src = ast_io.program_text(cl)
                     try:
                         text = compiler.compile_prolog_from_string(src, semcheck.Ctx)
                     except Exception as e:
                         return {'rejected': type(e).__name__, 'msg': str(e)[:200], 'source': src}
                     yp.load_script_from_string(text, overwrite=bool(op[2]))
+                for name, ar, style in tw:
+                    # rules of this script written in Python: re-entrant twins (their keys are defined by this script only)
+                    yp.register_function(name, consumers.python_twin(yp, E, op[1], (name, ar), style), arity=ar)
             elif op[0] == 'reg':
                 spec = case['native'][op[1]]
                 if which == 'B':
@@ -728,6 +823,9 @@ def oracle_mixed(case, io):
             for x, what in ((a, 'Python-predicate engine'), (b, 'all-compiled twin')):
                 if x['leftover'] or x['leaked']:
                     return '%s (%s): variables still bound after the enumeration ended (%s)' % (t, what, x['end'])
+                r = consumer_oracle(t, x, what)
+                if r:
+                    return r
             if b['end'].startswith('raised') and b['end'] != 'raised RecursionError':
                 return '%s: the all-compiled twin %s' % (t, b['end'])
             if a['end'].startswith('raised') and a['end'] != 'raised RecursionError':
@@ -741,7 +839,7 @@ def oracle_mixed(case, io):
     bad = [x for x in io.get('argtypes', []) if x not in ('Atom', 'Variable', 'Functor', 'int', 'str')]
     if bad:
         return 'a Python predicate received arguments that are not engine terms: %s' % bad
-    return None
+    return keys_oracle(case, io)
 
 def mixed_rows(rng, ar, lo, hi):
     rows = []
@@ -791,8 +889,9 @@ def gen_mixed(rng):
     for _ in range(rng.randrange(2, 6)):
         r = rng.random()
         if r < 0.4:
-            spec = {'name': name, 'arity': ar, 'style': rng.choice(['inferred', 'explicit', 'inferred', 'explicit', 'variadic']),
-                    'yield': rng.choice(YIELDS), 'form': rng.choice(['arrays', 'nested']), 'raise': None,
+            style = rng.choice(['inferred', 'explicit', 'inferred', 'explicit', 'variadic'])
+            spec = {'name': name, 'arity': ar, 'style': style, 'kind': pick_kind(rng, style),
+                    'yield': rng.choice(YIELDS), 'form': rng.choice(FORMS), 'raise': None,
                     'rows': mixed_rows(rng, ar, 0 if rng.random() < 0.1 else 1, 3 if ar else 2)}
             if raiser and spec['rows']:
                 raiser -= 1
@@ -809,8 +908,9 @@ def gen_mixed(rng):
             for row in mixed_rows(rng, ar, 1, 2):
                 ops.append(['assert', name, row])
     if not native:
-        spec = {'name': name, 'arity': ar, 'style': rng.choice(['inferred', 'explicit']), 'yield': rng.choice(YIELDS),
-                'form': rng.choice(['arrays', 'nested']), 'raise': None, 'rows': mixed_rows(rng, ar, 1, 3 if ar else 2)}
+        style = rng.choice(['inferred', 'explicit'])
+        spec = {'name': name, 'arity': ar, 'style': style, 'kind': pick_kind(rng, style), 'yield': rng.choice(YIELDS),
+                'form': rng.choice(FORMS), 'raise': None, 'rows': mixed_rows(rng, ar, 1, 3 if ar else 2)}
         native.append(spec)
         ops.insert(rng.randrange(0, len(ops) + 1), ['reg', 0])
     ops.insert(rng.randrange(0, len(ops) + 1) if rng.random() < 0.5 else 0, ['load', rules, rng.random() < 0.5])
@@ -823,7 +923,12 @@ def gen_mixed(rng):
     rounds = [len(ops)]
     if len(ops) > 1 and rng.random() < 0.35:
         rounds = [rng.randrange(1, len(ops)), len(ops)]
-    return {'kind': 'mixed', 'ops': ops, 'native': native, 'queries': queries, 'rounds': rounds, 'clauses': [], 'dyn': []}
+    case = {'kind': 'mixed', 'ops': ops, 'native': native, 'queries': queries, 'rounds': rounds, 'clauses': [], 'dyn': []}
+    if rng.random() < 0.5:
+        # keys that only the rules' script defines (never m itself, whose definition comes from several sources)
+        elsewhere = {(c[0], len(c[1])) for op in ops if op[0] == 'load' and op[1] is not rules for c in op[1]} | {(name, ar)}
+        case['twins'] = pick_twins(rng, rules, {(name, ar)}, elsewhere)
+    return case
 
 def mixed_corpus():
     """every order of {register_function, load overwrite=False, load overwrite=True, assert_fact} of length 2 and 3 for one key,
@@ -876,6 +981,8 @@ def gen(rng, tier):
                 subsets.append(s)
         for s in subsets:
             c = {'clauses': clauses, 'queries': queries, 'dyn': dt, 'native': [native_spec(rng, k[0], k[1]) for k in s]}
+            if rng.random() < 0.4:
+                c['twins'] = pick_twins(rng, clauses, {(d[0], len(d[1])) for d in dt}, set())
             if rng.random() < 0.45:
                 # queries are also asked before all Python predicates are registered (none, or some of them)
                 c['pre'] = [i for i in range(len(s)) if rng.random() < 0.35]
@@ -951,6 +1058,21 @@ def builtin_corpus():
                 L.append({'clauses': prog2, 'queries': queries2, 'dyn': dyn0 if k % 5 == 0 else [],
                           'native': [{'name': name, 'arity': ar, 'style': ['inferred', 'explicit', 'variadic'][k % 3], 'yield': ['false', 'true', 'mixed'][k % 3],
                                       'form': ['arrays', 'nested'][k % 2], 'raise': j, 'exc': cls}]})
+    # round 4: every kind of callable x every registration style that fits it, for q/1, e/2 and both (forms and yields cycle), with
+    # the conjunctive rules t1 / t8 written in Python too in every other case
+    k = 0
+    combos = [('inferred', kd) for kd in consumers.KINDS_FIXED] + \
+             [('explicit', kd) for kd in consumers.KINDS_FIXED + consumers.KINDS_EXPLICIT_ONLY + ['star:' + x for x in consumers.KINDS_STAR]] + \
+             [('variadic', kd) for kd in consumers.KINDS_STAR + ['kwonly']]
+    for style, kd in combos:
+        for sub in ([('q', 1), ('e', 2)],):
+            k += 1
+            c = {'clauses': prog, 'queries': queries, 'dyn': dyn0 if k % 4 == 0 else [],
+                 'native': [{'name': n, 'arity': a, 'style': style, 'kind': kd, 'yield': ['false', 'true', 'mixed'][(k + a) % 3], 'form': FORMS[(k + a) % len(FORMS)], 'raise': None}
+                            for n, a in sub]}
+            if k % 2:
+                c['twins'] = [['t1', 2, k % 3], ['t8', 1, (k + 1) % 3]]
+            L.append(c)
     return L + mixed_corpus()
 
 def nontrivial(case, io):
@@ -969,7 +1091,7 @@ def nontrivial(case, io):
     return bool(big) and bool(cs & {'cut', 'not', 'if', 'call:call', 'call:once', 'call:findall'})
 
 def distribution(cases, obs):
-    d = {'style': {}, 'yield': {}, 'form': {}, 'natives_per_case': {}, 'queried_before_registration': sum(1 for c in cases if c.get('pre') is not None), 're_registered': sum(1 for c in cases if c.get('decoy') and c.get('pre')), 'raising': 0, 'with_dynamic_facts': 0, 'ends_A': {},
+    d = {'style': {}, 'yield': {}, 'form': {}, 'kind': {}, 'cases_with_rules_written_in_python': 0, 'queries_run_behind_all_consumer_apis': 0, 'natives_per_case': {}, 'queried_before_registration': sum(1 for c in cases if c.get('pre') is not None), 're_registered': sum(1 for c in cases if c.get('decoy') and c.get('pre')), 'raising': 0, 'with_dynamic_facts': 0, 'ends_A': {},
          'python_predicate_calls': 0, 'constructs': {}, 'replaced_rows': {}, 'mixed_sources': {'cases': 0, 'sequences': {}, 'chained_keys': 0}}
     for c, o in zip(cases, obs):
         if c.get('kind') == 'mixed':
@@ -991,6 +1113,11 @@ def distribution(cases, obs):
         for s in c['native']:
             for k in ('style', 'yield', 'form'):
                 d[k][s[k]] = d[k].get(s[k], 0) + 1
+            kd = '%s %s' % (s['style'], s.get('kind') or 'def')
+            d['kind'][kd] = d['kind'].get(kd, 0) + 1
+        d['cases_with_rules_written_in_python'] += bool(c.get('twins'))
+        if isinstance(o, dict) and 'A' in o:
+            d['queries_run_behind_all_consumer_apis'] += sum(1 for q in o['A'] if q.get('cons'))
         n = str(len(c['native']))
         d['natives_per_case'][n] = d['natives_per_case'].get(n, 0) + 1
         d['raising'] += any(s.get('raise') is not None for s in c['native'])
@@ -1025,8 +1152,8 @@ def describe(case):
                 ops.append({'register_function': dict({k: v for k, v in sp.items() if k != 'rows'}, rows=ast_io.program_text(spec_fact_clauses(sp)))})
             else:
                 ops.append({'assert_fact': ast_io.program_text([[op[1], op[2], ['true']]])})
-        return {'operations': ops, 'queries_asked_after_operations': case['rounds'], 'queries': [qtext(q) for q in case['queries']]}
-    return {'program': ast_io.program_text(case['clauses']), 'python_predicates': case['native'],
+        return {'operations': ops, 'queries_asked_after_operations': case['rounds'], 'queries': [qtext(q) for q in case['queries']], 'rules_written_in_python_too': case.get('twins')}
+    return {'program': ast_io.program_text(case['clauses']), 'python_predicates': case['native'], 'rules_written_in_python_too': case.get('twins'),
             'dynamic_facts': [[n, [terms.show_term(t) for t in ts]] for n, ts in case['dyn']],
             'queries': [qtext(q) for q in case['queries']]}
 
